@@ -36,6 +36,27 @@ def gen_case(rng, tier, idx):
             else:
                 iwc["value"] = [rng.choice([0, 5, 10, 15]) for _ in iwc["value"]]
         return case
+    if idx % 4 == 1:
+        # dated schedules over several seasons with the off-season mostly skipped: entries on and around every season's first
+        # and last growing day, where the day index the schedule is read by meets the jump to the next planting date
+        import datetime as dt
+        from ..gen import planting_dates
+        from ..spec import fmt_date, parse_date
+        from ..domain import CROP_INFO
+        prof = dict(PROFILE, irr_methods=[3], n_seasons=[2, 3, 3], off_season_p=0.25, calendar_crop_p=0.7, sensible_planting_p=0.9)
+        case = std_case(rng, prof)
+        spec = case["spec"]
+        mat = CROP_INFO[spec["crop"]["name"]]["MaturityCD"]
+        have = {d for d, _ in (spec["irr"]["schedule"] or [])}
+        sched = list(spec["irr"]["schedule"] or [])
+        for p in planting_dates(spec):
+            for off in (0, 1, mat - 2, mat - 1, mat):
+                d = fmt_date(p + dt.timedelta(days=off))
+                if rng.random() < 0.6 and d not in have and spec["start"] <= d <= spec["end"]:
+                    have.add(d)
+                    sched.append([d, rng.choice([5, 10, 20, 30, 50])])
+        spec["irr"]["schedule"] = sorted(sched)
+        return case
     return std_case(rng, PROFILE)
 
 
